@@ -1,8 +1,8 @@
 PROP = dict(
     cover_pkgs=["pdu"],
     gen=["layouts"],
-    proof_files=["Properties/C12.v", "Proofs/PduMarshalProofs.v"],
-    model_files=["Model/Pdu.v", "Model/PduRun.v"],
+    proof_files=["Properties/C12.v", "Proofs/PduMarshalProofs.v", "Proofs/PduHazardProofs.v"],
+    model_files=["Model/Pdu.v", "Model/PduRun.v", "Model/PduHazards.v"],
     trusted=["Gen/PduLayouts.v: reflect walk of the command_id registry (hook pdu.VerifTypes, build tag verif), classifying each field as Marshal/unmarshal dispatch it",
              "Go value -> Gallina term printer harness/pdu_common.go"],
     assumptions=["bytes.Buffer, encoding/binary, reflect, sort are Go library code (modelled, tied by the generated cases)",
